@@ -57,6 +57,7 @@ def showAct : SeedAct → String
   | .seedWith n => s!"seed {n}"
   | .fromEntropy => "entropy"
   | .raise => "raise"
+  | .raiseHalfSeeded => "raise-after-change"
 
 def parseSeedArg (w : String) : Option (Option Int) :=
   if w = "none" then some none else (w.toInt?).map some
